@@ -296,10 +296,26 @@ def r1(db, rep):
         rep.ok("R1-key", "constructor:normalise", facts.loc(ctor), "executed for all %d orderings of the endpoints: pairs kept, smaller endpoint first" % n_cases)
 
 
+def creation_site(db, pp):
+    """(function that contains the insertion into streams_, the insertion, the node of process_packet at which it happens:
+    the insertion itself or the call of the member it was moved to)"""
+    def ins_of(h):
+        return [n for n in facts.fn_nodes(h) if n["k"] == "CXXMemberCallExpr" and n.get("cname") in ("insert", "emplace") and
+                "streams_" in facts.expr_str(cfg.receiver(n))]
+    own = ins_of(pp)
+    if own:
+        return pp, own, own[0]
+    for c in facts.fn_nodes(pp):
+        if c["k"] == "CXXMemberCallExpr" and c.get("callee"):
+            h = db.fn(c["callee"])
+            if h is not None and h.get("body") and h.get("rec") == pp.get("rec") and h is not pp and ins_of(h):
+                return h, ins_of(h), c
+    return pp, [], None
+
+
 def r2(db, rep, pp):
+    pp, ins, _site = creation_site(db, pp)
     g = cfg.FnCFG(pp)
-    ins = [n for n in facts.fn_nodes(pp) if n["k"] == "CXXMemberCallExpr" and n.get("cname") in ("insert", "emplace") and
-           "streams_" in facts.expr_str(cfg.receiver(n))]
     if len(ins) != 1:
         rep.violation("R2-announce", "process_packet:insert", facts.loc(pp), "expected exactly one insertion into streams_, found %d" % len(ins))
         return
@@ -506,8 +522,8 @@ def r6(db, rep, pp):
                                       ("finished <=> (cRST or sRST) or (cFIN and sFIN): " + msg) if ok else
                                       "Stream::is_finished() is not `either side RST, or both sides FIN`: " + msg)
     # creation
-    ins = [n for n in facts.fn_nodes(pp) if n["k"] == "CXXMemberCallExpr" and n.get("cname") in ("insert", "emplace") and
-           "streams_" in facts.expr_str(cfg.receiver(n))]
+    _h, _ins, site_ = creation_site(db, pp)
+    ins = [site_] if site_ is not None else []
     if ins:
         iff = ins[0]
         roles = {"syn": lambda a: "SYN" in a, "ack": lambda a: "ACK" in a, "attach": lambda a: "attach_to_flows_" in a,
